@@ -17,7 +17,7 @@ from hypothesis import strategies as st
 
 from vf.common import call_sut, run_given, shard_seed
 from vf.gen import programs as P
-from vf.props.c01 import tool_scan_file
+from vf.props.c01 import tool_scan_file, tool_scan_path
 
 ID = "C17"
 LEVEL = "exploration"
@@ -95,8 +95,8 @@ def all_functions(ast):
     return out
 
 
-def marker_text(rnd, lang, labels, style=None):
-    word = rnd.choice(["nocl", "nocl", "NOCL", "NoCl", "nOcL"])
+def marker_text(rnd, lang, labels, style=None, word=None):
+    word = word or rnd.choice(["nocl", "nocl", "NOCL", "NoCl", "nOcL"])
     labels.add("case:upper" if word == "NOCL" else "case:mixed" if word != "nocl" else "case:lower")
     sp = rnd.choice(["", " ", " ", "  ", "\t"])
     labels.add("spacing:none" if sp == "" else "spacing:wide" if sp in ("  ", "\t") else "spacing:one")
@@ -115,23 +115,35 @@ def marker_text(rnd, lang, labels, style=None):
     return f"/*{sp}{word}{reason} */"
 
 
-def decorate(ast, rnd):
-    """Adds markers and decoys in place; returns (names of marked functions as node ids, labels)."""
+def decorate(ast, rnd, uniform=None):
+    """Adds markers and decoys in place; returns (names of marked functions as node ids, labels). uniform: every marker in
+    the file is spelled with this one (non-lower-case) word and the lower-case word occurs nowhere else in the file."""
+    mt = lambda *a, **k: marker_text(*a, word=uniform, **k)  # noqa: E731
     lang = ast["lang"]
     labels = set()
+    if uniform:
+        labels.add("uniform-marker-spelling:" + uniform)
     elig = eligible_functions(ast)
     funcs = all_functions(ast)
     marked = []
+    if lang in ("JavaScript", "TypeScript"):
+        for f in funcs:
+            if f.get("shape") == "function" and not f.get("is_async") and not f.get("prefix") and f.get("head", "").startswith("function ") and rnd.random() < 0.3:
+                f["kw_break"] = True  # 'function' on one line, the name on the next: the marker belongs on the name's line
+                labels.add("keyword_and_name_on_separate_lines")
+                if rnd.random() < 0.5:
+                    f["kw_tc"] = pair(mt(rnd, lang, set()))  # a marker on the keyword's line is on no name's line
+                    labels.add("decoy:keyword_line")
     for f in elig:
         if rnd.random() < 0.45:
-            pos = "trail" if lang == "Python" or rnd.random() < 0.65 else "pre"
+            pos = "trail" if lang == "Python" or rnd.random() < 0.65 or f.get("kw_break") else "pre"  # 'pre' sits on the header's first line
             if pos == "trail":
-                f["name_tc"] = pair(marker_text(rnd, lang, labels))
+                f["name_tc"] = pair(mt(rnd, lang, labels))
                 if lang != "Python" and rnd.random() < 0.3:
                     f["pre_c"] = rnd.choice(["/* helper */", "/* see docs */", "/**/"])  # an ordinary comment earlier on the same line
                     labels.add("ordinary_comment_before_marker")
             else:
-                f["pre_c"] = pair(marker_text(rnd, lang, labels, style="/*"))
+                f["pre_c"] = pair(mt(rnd, lang, labels, style="/*"))
             labels.add(f"mark:{pos}")
             f["marked"] = True
             marked.append(f)
@@ -151,11 +163,11 @@ def decorate(ast, rnd):
     collect(ast)
     for _ in range(rnd.choice([0, 0, 1, 2, 3, 5])):
         if stmts and rnd.random() < 0.3:
-            rnd.choice(stmts)["tc"] = pair(marker_text(rnd, lang, set()))
+            rnd.choice(stmts)["tc"] = pair(mt(rnd, lang, set()))
             labels.add("stray:trailing_on_statement")
         else:
             lst = rnd.choice(lists)
-            lst.insert(rnd.randint(0, len(lst)), {"k": "cmt", "style": "raw", "lines": [pair(marker_text(rnd, lang, set()))]})
+            lst.insert(rnd.randint(0, len(lst)), {"k": "cmt", "style": "raw", "lines": [pair(mt(rnd, lang, set()))]})
             labels.add("stray:comment_line")
     if lang == "TypeScript" and all(n["k"] in ("func", "s", "blank", "cmt") for n in ast["items"]):
         # Overload signatures (typed, body-less) right before a top-level function: their header must not pick up a marked
@@ -173,7 +185,7 @@ def decorate(ast, rnd):
     for f in funcs:
         if rnd.random() > 0.4:
             continue
-        kinds = ["above", "later_header_line", "first_body_line"] if f.get("marked") else ["word_later", "above", "later_header_line", "first_body_line", "in_string"]
+        kinds = ["above", "later_header_line", "first_body_line"] if f.get("marked") or uniform else ["word_later", "above", "later_header_line", "first_body_line", "in_string"]
         kind = rnd.choice(kinds)
         if f.get("marked"):
             labels.add("decoy_on_marked_function")
@@ -184,16 +196,16 @@ def decorate(ast, rnd):
             texts += ["#; nocl", "#;nocl", "# ; nocl"] if lang == "Python" else ["//* nocl", "//*nocl", "/*/ nocl */", "//; nocl", "/* * nocl */"]
             f["name_tc"] = pair(rnd.choice(texts))
         elif kind == "above":
-            f["above_c"] = pair(marker_text(rnd, lang, set()))
+            f["above_c"] = pair(mt(rnd, lang, set()))
         elif kind == "later_header_line":
             if f.get("hdr_lines") and f["params"]:
-                f["tc_open"] = pair(marker_text(rnd, lang, set()))
+                f["tc_open"] = pair(mt(rnd, lang, set()))
             elif lang != "Python" and f.get("brace_next"):
-                f["tc_open"] = pair(marker_text(rnd, lang, set()))
+                f["tc_open"] = pair(mt(rnd, lang, set()))
             else:
                 continue
         elif kind == "first_body_line":
-            f["body"].insert(0, {"k": "cmt", "style": "raw", "lines": [pair(marker_text(rnd, lang, set()))]})
+            f["body"].insert(0, {"k": "cmt", "style": "raw", "lines": [pair(mt(rnd, lang, set()))]})
         else:
             if lang in ("Python", "JavaScript"):
                 f["params"] = f["params"] + ([f'mode="nocl"'] if lang == "Python" else ['mode = "// nocl"'])
@@ -236,11 +248,12 @@ def run_case(case):
     rd_m, rd_n, marked_idx = analyse(ast)
     if len(rd_m.text) != len(rd_n.text):
         raise AssertionError("harness: marked and neutral renderings differ in length")
-    r = call_sut(tool_scan_file, lang, rd_n.text)
+    tool = tool_scan_path if case.get("via") == "path" else tool_scan_file  # 'path': a file on disk through scan_path
+    r = call_sut(tool, lang, rd_n.text)
     if r[0] == "exc":
         return (f"{lang}:{r[1]}", r[2])
     base = r[1]
-    r = call_sut(tool_scan_file, lang, rd_m.text)
+    r = call_sut(tool, lang, rd_m.text)
     if r[0] == "exc":
         return (f"{lang}:{r[1]}", r[2])
     got = r[1]
@@ -288,7 +301,7 @@ def shrink_candidates(case):
     for a in P.shrink_ast(ast):
         yield dict(case, ast=a)
     # drop individual markers / decoys
-    for key in ("name_tc", "pre_c", "above_c"):
+    for key in ("name_tc", "pre_c", "above_c", "kw_tc"):
         a = copy.deepcopy(ast)
         changed = False
         for f in all_functions(a):
@@ -306,13 +319,16 @@ def gen(col, seed, n, lang, sizes):
     def body(v):
         rnd, size = v
         ast = P.gen_program(rnd, lang, size)
-        marked, labels = decorate(ast, rnd)
+        uniform = rnd.choice([None] * 6 + ["NOCL", "NoCl", "Nocl"])
+        via = "path" if uniform or rnd.random() < 0.15 else "string"
+        marked, labels = decorate(ast, rnd, uniform)
+        labels.add(f"via:{via}")
         nfun = len(all_functions(ast))
         ndecoy = sum(1 for f in all_functions(ast) if f.get("decoy"))
         nt = (len(marked) >= 1 and nfun > len(marked)) or ndecoy >= 1
         labels = sorted(labels) + [f"lang:{lang}", f"marked:{min(len(marked), 3)}"]
         text = P.render(ast, "marked").text
-        col.eval({"ast": ast}, nontrivial=nt, labels=labels, distinct_key=lang + text)
+        col.eval({"ast": ast, "via": via}, nontrivial=nt, labels=labels, distinct_key=lang + text)
         col.samples = [s if not (isinstance(s, dict) and "ast" in s) else {"lang": s["ast"]["lang"], "marked_program": P.render(s["ast"], "marked").text[:1500]} for s in col.samples]
 
     run_given(body, strat, seed, n)
